@@ -289,6 +289,8 @@ def main(tier, seed):
         elif not (close(first, want) and close(second, want)):
             rep.violation('history:reverse:kernel', 'repeated reverse sweeps after one forward evaluation differ from the sweep on a fresh graph (%s)' % kname, payload)
     mixed_kind_section(rep, ap, rng, tier)
+    import r9
+    r9.c06_jacobian_degrees(rep, ap, rng, tier)
     return rep.finish()
 
 
